@@ -433,8 +433,8 @@ vpoint!("backup.after_wal");
             });
         }
 
-        let wal = Wal::open(&wal_path)?;
-        let (txid, epoch) = wal.latest_checkpoint_info()?.unwrap_or((0, 0));
+        // The database may be live: look at the log read-only.
+        let (txid, epoch) = Wal::latest_checkpoint_info_at(&wal_path)?.unwrap_or((0, 0));
 
         // NOTE: We currently copy the full WAL file in `copy_wal_file()`, so the safe
         // start offset is always 0. Trimming WAL requires writing a self-contained
